@@ -21,6 +21,10 @@ CHECKS = {
    text="For every stream of <=3 messages from a 16-message pool (sound, each fault kind, embedded newlines, empty, unterminated, messages of N-1/N/N+1 bytes, alignment pads) and 8 (quick) / 18 (thorough) buffer sizes, the real process future is executed under every composition of the stream into reads (short streams), every chunking with <=2-3 cuts, regular chunkings and inserted zero-length reads, and under every Pending pattern with <=1 (quick) / <=2 (thorough) suspended futures; all observations must equal the one-byte-per-read observation and, when every message fits and is single-newline, the run-per-message observation. In addition a breadth-first search over read histories, merged on (position, loop state from the hook, observation so far), explores every read size 0..=free at every state for streams up to 4N bytes and requires all terminal states of a stream to carry the same observation.",
    note="Merging relies on the hook exposing all loop-carried variables of process (argued in DESIGN.md 3.4); the un-merged enumeration does not. Executor polls unconditionally (no lost wake-ups modelled).",
    technique="explicit-state breadth-first search over the real process future (state merging on hooked loop state) plus exhaustive enumeration of read chunkings and deviation-bounded Pending patterns"),
+ "C08": dict(engine="msg-enum+env-enum",
+   text="For 7 templates (block or string payload as first or second argument of five handlers) at each unit position of a three-unit compound whose other units are relative, every payload over the alphabet {newline ; , : # ' \" space x} up to 3 (quick) / 4 (thorough) bytes, every byte value at three positions of a block, and non-ASCII / control strings, the message is executed by run and by process::<N> under all compositions of the message into reads (messages up to 12/14 bytes) or every single and pair of cut positions, for up to four buffer sizes >= the message length; the handler log must be exactly the template's three calls with the payload delivered byte for byte, without any error.",
+   note="Sound messages only (faulty ones belong to C06); expected log is constructed from the template, not from the code.",
+   technique="bounded exhaustive enumeration of payloads, positions and read chunkings on the real run/process"),
  "C10": dict(engine="env-enum",
    text="For every stream of <=3 (quick) / <=4 (thorough) messages from a 10-message pool, buffer sizes 8/16/64 (thorough: 7 sizes) and every chunking with <=2 (thorough <=3) cuts plus regular chunkings and zero-length reads, the fault-free transport trace of the real process future is checked (response buffer empty and everything owed written and flushed at every read; writes equal the responses owed for the queries that ran successfully; no empty write; result is the transport's end-of-stream error, never Ok), and then a distinct transport error is injected at every index of that call sequence - reads, writes and flushes alike: the trace must be a prefix of the fault-free trace ending at the fault, nothing may follow, and process must return that very error.",
    note="Owed responses are derived from the observed handler log and the recording interface's value table; a query unit for which an error is reported owes nothing.",
